@@ -3,6 +3,7 @@ from __future__ import annotations
 
 import math
 import operator
+import os
 
 from hypothesis import strategies as st
 
@@ -74,6 +75,10 @@ CONVERTERS = {
     "sm": ["SMToBMS", "SMToOsu", "SMToQua"],
     "o2j": ["O2JToBMS", "O2JToOsu", "O2JToQua", "O2JToSM", "O2JToSM.merge"],
 }
+# BMSToQua on a BMS chart without notes raises "cannot convert float NaN to integer" whatever raise_bad_mode says
+# (proposed_fixes/C08_bmstoqua_no_notes.md).  Until that is decided the converter is not run on such charts; with
+# the fix applied set the variable and a note-less chart counts as an unsupported key mode (raise / mode "").
+ASSERT_BMSTOQUA_WITHOUT_NOTES = os.environ.get("C08_ASSERT_BMSTOQUA_NO_NOTES") == "1"
 _MAP_CLASS = {"osu": "OsuMap", "qua": "QuaMap", "bms": "BMSMap", "sm": "SMMap", "o2j": "O2JMap"}
 LABEL_CHANGING = {"sorted", "after", "before", "stack_add", "stack_mul", "stack_loc", "rate"}
 _CMP = {">": operator.gt, ">=": operator.ge, "<": operator.lt, "<=": operator.le, "==": operator.eq}
@@ -267,7 +272,7 @@ def real_step(obj, game, step):
 
 
 def _rowkey(row):
-    return tuple((k, round(v, 3) if isinstance(v, float) and not math.isnan(v) else (float(v) if isinstance(v, (int, bool)) else repr(v))) for k, v in sorted(row.items()))
+    return tuple((k, (0, float(v)) if isinstance(v, (int, float, bool)) and v == v else (1, repr(v))) for k, v in sorted(row.items()))
 
 
 def _same_rows(got, exp, rel=1e-12):
@@ -487,13 +492,14 @@ def convert_all(ctx, game, obj, model, infos, opts, tag=""):
                 keys = [i["keys"] for i in infos]
             else:
                 keys = [_note_keys(mm) for mm in model]
-            if any(k is None for k in keys):
-                if conv == "BMSToQua":
+            if any(k is None for k in keys):  # key count taken from the notes, and there is none
+                ctx.label(f"no-notes:{conv}")
+                if conv == "BMSToQua" and not ASSERT_BMSTOQUA_WITHOUT_NOTES:
                     ctx.label("not-run:no-notes:BMSToQua")
                     continue
-                rbm = False
-                ctx.label(f"no-notes:{conv}")
-            bad = any(k is not None and k not in spec["ok_keys"] for k in keys)
+                if conv == "OsuToSM":
+                    rbm = False
+            bad = any(k is None or k not in spec["ok_keys"] for k in keys)
             if rbm is not None:
                 kwargs["raise_bad_mode"] = rbm
             expect_raise = bad and rbm is not False
@@ -593,8 +599,72 @@ def check_built(case, ctx):
     run_history(ctx, game, obj, model, infos, hist, opts)
 
 
+# --------------------------------------------------------------------------- #
+# 'read' origin: the source is a freshly read .osu / .qua text
+# --------------------------------------------------------------------------- #
+_word = st.builds(lambda a, b: (a + b).rstrip(), st.sampled_from(["T", "Ab", "x", "Zed"]), st.text(alphabet="abcXYZ 019_-", max_size=7))
+
+
+@st.composite
+def read_case_st(draw, tier):
+    big = tier == "thorough"
+    game = draw(st.sampled_from(["osu", "qua"]))
+    if game == "osu":
+        from vlib.gen import osu as GO
+
+        doc = draw(GO.text_case_strategy(tier, keys=[4, 7, 4, 7, 8, 10, 1], meta="plain", max_notes=40 if big else 10, max_tempo=8 if big else 4))
+        ch = doc["chart"]
+        for f in ("title", "artist", "creator", "version"):
+            ch["meta"][f] = draw(_word)
+        keys = ch["keys"]
+    else:
+        from vlib.gen import qua as GQ
+
+        ch = draw(GQ.chart_strategy(tier, document=True, omit=False, meta="plain", max_notes=40 if big else 10, max_points=8 if big else 4))
+        for f in ("Title", "Artist", "Creator", "DifficultyName"):
+            if f in ch["meta"]:
+                ch["meta"][f] = draw(_word)
+        doc = dict(chart=ch)
+        keys = ch["keys"] or 4
+    pool = sorted({float(o["offset"]) for n in ("hits", "holds", "bpms", "svs") for o in ch[n]}) or [0.0]
+    hist = draw(history_st(game, keys, B.list_names(game), pool, 1))
+    return dict(game=game, doc=doc, history=hist, opts=draw(_opts_st))
+
+
+def _read_source(case):
+    if case["game"] == "osu":
+        from reamber.osu.OsuMap import OsuMap
+        from vlib.gen import osu as GO
+
+        return OsuMap.read(GO.render(case["doc"]["chart"], case["doc"].get("syntax")))
+    from reamber.quaver.QuaMap import QuaMap
+    from vlib.gen import qua as GQ
+
+    return QuaMap.read(GQ.render(case["doc"]["chart"]).split("\n"))
+
+
+def check_read(case, ctx):
+    game = case["game"]
+    try:
+        obj = _read_source(case)
+        model = [{name: B.rows(tl) for name, tl in obj.objs.items()}]
+    except Exception as e:  # noqa: BLE001 - reading is C01 / C06's business
+        ctx.exclude(f"read-raised:{type(e).__name__}")
+    if any(_bad_cell(v) for rows in model[0].values() for r in rows for v in r.values()):
+        ctx.exclude("read-source-has-missing-values")
+    if game == "osu":
+        info = dict(title=obj.title, artist=obj.artist, creator=obj.creator, diff=obj.version, keys=int(obj.circle_size))
+    else:
+        info = dict(title=obj.title, artist=obj.artist, creator=obj.creator, diff=obj.difficulty_name, keys=None)
+    if not all(isinstance(info[k], str) and info[k].isascii() for k in ("title", "artist", "creator", "diff")):
+        ctx.exclude("read-source-non-ascii-metadata")
+    ctx.label("origin=read")
+    run_history(ctx, game, obj, model, [info], case["history"], case["opts"])
+
+
 SUBS = [
-    Sub("built", check_built, strategy=case_st, examples={"quick": 260, "thorough": 2200}, shards={"quick": 8, "thorough": 16}),
+    Sub("built", check_built, strategy=case_st, examples={"quick": 260, "thorough": 1500}, shards={"quick": 8, "thorough": 16}),
+    Sub("read", check_read, strategy=read_case_st, examples={"quick": 200, "thorough": 600}, shards={"quick": 2, "thorough": 16}),
 ]
 
 MANIFEST = dict(
